@@ -7,6 +7,7 @@ import (
 	"github.com/orda-io/orda/client/pkg/iface"
 	"github.com/orda-io/orda/client/pkg/model"
 	"github.com/orda-io/orda/client/pkg/simhook"
+	"sort"
 	"strings"
 
 	"golang.org/x/sync/semaphore"
@@ -44,9 +45,28 @@ func (its *DatatypeManager) DeliverTransaction(wired iface.WiredDatatype) {
 			}
 			defer func() {
 				its.sema.Release(1)
+				// Operations issued meanwhile are delivered now: on this datatype, or on another one
+				// whose own delivery found the semaphore taken and gave up (nobody else would push them
+				// before the next local operation on that datatype).
+				var next iface.WiredDatatype
 				if wired.NeedPush() {
+					next = wired
+				} else {
+					keys := make([]string, 0, len(its.dataMap))
+					for k := range its.dataMap {
+						keys = append(keys, k)
+					}
+					sort.Strings(keys)
+					for _, k := range keys {
+						if other, ok := its.dataMap[k].(iface.WiredDatatype); ok && other.NeedPush() {
+							next = other
+							break
+						}
+					}
+				}
+				if next != nil {
 					its.ctx.L().Infof("deliver transaction after delivering")
-					its.DeliverTransaction(wired)
+					its.DeliverTransaction(next)
 				}
 			}()
 			if err := its.sync(wired); err != nil {
